@@ -243,12 +243,16 @@ func c18Chunks(c *Ctx, r *Report, rule string) {
 		var cases []tcase
 		// no auth message is longer than the package's MessageAuthBytesMax: a longer chunk sequence is well formed
 		// as chunks go, but it is no auth message, and the parser of auth messages rejects it
-		maxTotal := int64(1 << 30)
+		// (the format's own figure: a user name of at most 255 bytes, the delimiter, 32 key bytes and the parity byte
+		// make 289 payload bytes at most, which take two chunks of two header bytes each - 293 bytes)
+		const payloadMax = 255 + 1 + 32 + 1
+		maxTotal := int64(payloadMax + 2*((payloadMax+max-1)/max))
 		for _, p := range c.Pkgs {
 			if short(p.PkgPath) == "modules/l4winbox" {
 				if cst, ok := scopeLookup(p.Types, "MessageAuthBytesMax").(*types.Const); ok {
 					if v, ok := constant.Int64Val(constant.ToInt(cst.Val())); ok {
-						maxTotal = v
+						r.check(v == maxTotal, rule, "modules/l4winbox.MessageAuthBytesMax", "the longest auth message", "-", fmt.Sprintf("%d", maxTotal),
+							fmt.Sprintf("the package states MessageAuthBytesMax = %d; the longest auth message (a user name of 255 bytes, the delimiter, 32 key bytes and the parity byte, in two chunks) has %d bytes: with a smaller figure the parser rejects what the serialiser produces for the longest names, with a larger one it accepts what is no auth message", v, maxTotal))
 					}
 				}
 			}
@@ -287,6 +291,10 @@ func c18Chunks(c *Ctx, r *Report, rule string) {
 			}
 			total = pos - t.cut
 			sc := &Scenario{Name: t.name, MaxVisit: 8, MaxPaths: 2000, NoDefaultInline: true,
+				// the package's own small helpers (length checks, the chunk type of a position) are evaluated in place
+				Inline: func(f *ssa.Function) bool {
+					return f.Pkg == fn.Pkg && f.Signature.Recv() == nil && len(f.Blocks) > 0 && len(f.Blocks) <= 12
+				},
 				Params: map[string]SV{"recv": symRef("msg", false), "p0": symSlice("src", int64(total))}, Heap: heap}
 			var got [][2]int64 // (offset, length) of the chunks handed on
 			reached := false
